@@ -171,6 +171,9 @@ def mutate(rng, data):
 NAME_POOL = [b"a.ini", b"b", b"c.d", b"x y", b"inc/f", b".", b"n\xe9", b"%include", b"[s]", b"k=v"]
 
 
+LONG_SIZES = [127, 128, 129, 1023, 1024, 4095, 4096, 4097]
+
+
 def parse_case(rng):
     kind = rng.below(100)
     ops = []
@@ -190,6 +193,29 @@ def parse_case(rng):
         ops.append("parse %s %d" % (hx(names[0]), 0 if rng.chance(3, 4) else 1 + rng.below(2 * d + 2)))
         if d >= 1 and rng.chance(1, 2):
             ops.append("parse %s 0" % hx(names[1]))
+        return ops
+    if kind == 30:
+        # very long lines, around the sizes a line buffer would have (the parser has none: whole file)
+        # (the model reads its buffer as a list, i.e. quadratic in the line length: the largest
+        # sizes only in the thorough tier)
+        n = rng.choice(LONG_SIZES)
+        what = rng.below(6)
+        fill = bytes(rng.choice(b"abcXYZ019_.-*") for _ in range(n))
+        if what == 0:
+            body = b"k = " + fill
+        elif what == 1:
+            body = fill + b" = v"
+        elif what == 2:
+            body = b"[" + fill + b"]"
+        elif what == 3:
+            body = b"# " + fill
+        elif what == 4:
+            body = b"k =" + b" " * n + b"v" + b" \t" * (n // 2)
+        else:
+            body = b" " * n + b"k=v"
+        txt = b"[s]\n" + body + rng.choice([b"\n", b"\r\n", b""]) + rng.choice([b"", b"after = 1\n"])
+        ops.append("file %s %s" % (hx(b"long"), hx(txt)))
+        ops.append("parse %s %d" % (hx(b"long"), rng.choice([0, 0, 2])))
         return ops
     if kind < 30:
         # raw bytes
@@ -328,13 +354,19 @@ def cf_text(rng, sid, names):
             out += lead + b"[" + sect.encode("latin-1") + b"]"
         elif r < 30 and names:
             out += lead + b"%include " + rng.choice(names)
+        elif r < 31:
+            out += lead + b"%include nosuch"                      # missing file in the middle of a load
         elif r < 36:
             out += lead + rng.choice([b"# c", b"; c", b""])
         elif r < 40:
             out += gen_line(rng, names)
         else:
             key = pick_key(rng, sid, sect if sect is not None else "main")
+            if rng.chance(1, 8):
+                key = rng.choice(["i", "s", "x", "k1"])             # the same key names in every section
             val = pick_val(rng, key).replace("\n", " ")
+            if rng.chance(1, 60):
+                val = "v" * rng.choice([127, 128, 4095, 4096, 4097, 9000])
             out += lead + key.encode("latin-1") + rng.choice(BLANKS) + b"=" + rng.choice(BLANKS) + \
                 val.encode("latin-1") + rng.choice(WS_TRAIL)
         out += rng.choice(EOLS)
@@ -349,6 +381,11 @@ def cf_case(rng):
     if rng.chance(1, 6):
         ops.append("home " + rng.choice(["nil", hx(b"/h"), hx(b""), hx(b"/home/x y/")]))
     names = [b"inc1", b"inc2"]
+    if rng.chance(3, 4):
+        # the include files exist from the start (otherwise most loads end in "could not load file")
+        ops.append("file %s %s" % (hx(b"inc2"), hx(cf_text(rng, sid, []))))
+        ops.append("file %s %s" % (hx(b"inc1"), hx(cf_text(rng, sid, names[1:]))))
+    ops.append("file %s %s" % (hx(b"main.ini"), hx(cf_text(rng, sid, names))))
     for _ in range(2 + rng.below(14)):
         r = rng.below(100)
         if r < 22:
@@ -360,7 +397,7 @@ def cf_case(rng):
             if rng.chance(2, 3):
                 ops.append("load %s" % hx(b"main.ini"))
         elif r < 30:
-            ops.append("load %s" % hx(rng.choice([b"main.ini", b"inc1", b"nosuch"])))
+            ops.append("load %s" % hx(rng.choice([b"main.ini", b"main.ini", b"main.ini", b"inc1", b"nosuch"])))
         elif r < 65:
             sect = pick_sect(rng, sid)
             key = pick_key(rng, sid, sect)
@@ -419,6 +456,53 @@ def rt_case(rng):
     return ops + ["dump"]
 
 
+BRANCH = {}     # what the implementation answered, per op (measured on its own output)
+FEATURE = {}    # what the generated files contained
+
+
+def _tally(d, k, n=1):
+    d[k] = d.get(k, 0) + n
+
+
+def note_features(cases):
+    for c in cases:
+        for l in c:
+            w = l.split()
+            if w[0] != "file" or w[2] == "-":
+                if w[0] == "file":
+                    _tally(FEATURE, "file_empty")
+                continue
+            b = bytes.fromhex(w[2])
+            _tally(FEATURE, "files")
+            if b"\r\n" in b:
+                _tally(FEATURE, "file_with_crlf")
+            if 0 in b:
+                _tally(FEATURE, "file_with_nul")
+            if b"\x0b" in b or b"\x0c" in b:
+                _tally(FEATURE, "file_with_vt_or_ff")
+            if not b.endswith(b"\n"):
+                _tally(FEATURE, "file_without_final_newline")
+            if any(x >= 0x80 for x in b):
+                _tally(FEATURE, "file_with_high_bytes")
+            ls = b.split(b"\n")
+            m = max(len(x) for x in ls)
+            if m >= 4096:
+                _tally(FEATURE, "line_ge_4096")
+            elif m >= 128:
+                _tally(FEATURE, "line_ge_128")
+            inc = b.count(b"%include")
+            if inc:
+                _tally(FEATURE, "file_with_include")
+                _tally(FEATURE, "include_directives", inc)
+            if b"%include nosuch" in b:
+                _tally(FEATURE, "include_of_missing_file")
+            first = [x.strip() for x in ls if x.strip() and x.strip()[:1] not in (b"#", b";", b"%")]
+            if first and not first[0].startswith(b"["):
+                _tally(FEATURE, "key_before_any_section")
+            if sum(1 for x in ls if x.strip().startswith(b"[")) >= 2:
+                _tally(FEATURE, "several_sections")
+
+
 def monitor(lines, c_lines):
     """property monitor on the implementation's own output (independent of the model):
     nothing may stay allocated, a loaded buffer must be intact when freed, and in a
@@ -429,6 +513,16 @@ def monitor(lines, c_lines):
             break
         w = l.split()
         out = c_lines[i].split(" ## ")[0]
+        if w and w[0] in ("parse", "load", "set", "setself", "get"):
+            err = c_lines[i].split(" ## err=")[1].split()[0] if " ## err=" in c_lines[i] else ""
+            res = out.split()[0] if out else "?"
+            if w[0] == "get":
+                res = "nil" if out == "nil" else "value"
+            _tally(BRANCH, w[0] + ":" + res + (("/" + err) if err and err != "none" else ""))
+            if w[0] == "parse":
+                ev = out.split()[1] if len(out.split()) > 1 else "none"
+                nev = 0 if ev == "none" else ev.count(",") + 1
+                _tally(BRANCH, "parse:events_" + ("0" if nev == 0 else "1-3" if nev <= 3 else "4-10" if nev <= 10 else "11+"))
         if w and w[0] in ("parse", "load", "set", "setself"):
             if "NOT-INTACT" in out:
                 yield i, "a loaded buffer was freed with a NUL patch left in it: " + out, "intact"
@@ -499,10 +593,16 @@ def run(ck):
     if not ck.quick():
         ck.leanchecker(PROP_MODULES + ["UsualProofs.C18." + m for m in
                                        ("View", "Ref", "LineSpec", "Scan", "NumP", "ConfigP", "LoadP", "Float", "StrtodP", "FmtP")])
-    ck.cov["partial"] = ["set_get_roundtrip_time_partial: the microsecond round trip is proved for all values with <= 6 "
-                         "significant digits from 100 us to 999999 s (set_get_roundtrip_time_usec); still a finite kernel "
-                         "evaluation: values below 100 us (exponent notation of %g) and cf_set/get_time_double",
+    ck.cov["partial"] = ["set_get_roundtrip_time_partial: proved for all values: microseconds with <= 6 significant digits "
+                         "in %g's fixed range (set_get_roundtrip_time_usec), more digits (time_usec_get_set_get_stable + "
+                         "witness: identity needs <= 6 digits), doubles on canonical spellings "
+                         "(set_get_roundtrip_time_double); still a finite kernel evaluation: texts %g prints in exponent "
+                         "notation (below 1e-4 s, from 1e6 s)",
                          "cf_set_filename: $HOME / getpwnam / getpwuid are parameters (Env) of set_filename and set_filename_user"]
+    BRANCH.clear()
+    FEATURE.clear()
+    if not ck.quick():
+        LONG_SIZES.extend([8191, 8192, 8193])
     rng = vf.SplitMix(ck.seed)
     nontriv = lambda c: any(l.split()[0] in ("parse", "load", "set", "setself") for l in c)
     hist = {}
@@ -512,6 +612,7 @@ def run(ck):
             for l in c:
                 op = l.split()[0]
                 hist[op] = hist.get(op, 0) + 1
+        note_features(cases)
         for ch in vf.chunks(cases, 2500):
             ck.compare_cases(hcmd, dcmd, ch, label=label, nontrivial=nontriv, monitor=monitor)
 
@@ -527,6 +628,8 @@ def run(ck):
     for c in (pc[0], pc[1], cc[0], rc[0]):
         ck.sample(c[:10])
     ck.cov["op_histogram"] = hist
+    ck.cov["branch_distribution"] = dict(sorted(BRANCH.items()))
+    ck.cov["input_features"] = dict(sorted(FEATURE.items()))
     cleanup(hcmd)
 
 
